@@ -14,8 +14,8 @@
 use std::{any::TypeId, fmt::Debug, ops::Sub};
 
 use ndarray::{
-    Array, Array1, ArrayBase, ArrayView, ArrayViewMut, ArrayViewMut1, Axis, AxisDescription, Data,
-    DimAdd, Dimension, IntoDimension, Ix1, Ix2, OwnedRepr, RemoveAxis, Slice, Zip,
+    Array, Array1, ArrayBase, ArrayView, ArrayViewMut, ArrayViewMut1, Axis, Data, DimAdd,
+    Dimension, IntoDimension, Ix1, Ix2, OwnedRepr, RemoveAxis, Zip,
 };
 use num_traits::{cast, Num, NumCast};
 
@@ -266,27 +266,14 @@ where
             let y = *ys
                 .get(current_dim.clone())
                 .unwrap_or_else(|| unreachable!());
-            let subview =
-                buffer.slice_each_axis_mut(|AxisDescription { axis: Axis(nr), .. }| {
-                    match current_dim.as_array_view().get(nr) {
-                        Some(idx) => Slice::from(*idx..*idx + 1),
-                        None => Slice::from(..),
-                    }
-                });
-
-            let subview = match subview.into_shape_with_order(
-                self.data
-                    .raw_dim()
-                    .remove_axis(Axis(0))
-                    .remove_axis(Axis(0)),
-            ) {
-                Ok(view) => view,
-                Err(err) => {
-                    let expect = self.get_buffer_shape(xs.raw_dim()).into_pattern();
-                    let got = buffer.dim();
-                    panic!("{err} expected: {expect:?}, got: {got:?}")
-                }
-            };
+            // select `buffer[index, ..]`, this works for any memory layout of the buffer
+            let mut subview = buffer.view_mut().into_dyn();
+            for &idx in current_dim.as_array_view().iter() {
+                subview = subview.index_axis_move(Axis(0), idx);
+            }
+            let subview = subview
+                .into_dimensionality::<<D::Smaller as Dimension>::Smaller>()
+                .unwrap_or_else(|err| unreachable!("{err}"));
 
             self.strategy.interp_into(self, subview, x, y)?;
         }
